@@ -146,9 +146,41 @@ pub fn run(ctx: &mut Ctx) {
                 }
             }
         }
+        // one assertion whose predicate and object have EQUAL digests but different forms (an element and its elided
+        // twin; a known value and the leaf #6.40000(n)), both ways round; and a highly compressible megabyte
+        if case % 23 == 3 {
+            let kv = Envelope::new(KnownValue::new(case % 200));
+            let leaf_twin = Envelope::new(dcbor::CBOR::to_tagged_value(40000u64, case % 200));
+            let pairs: Vec<(&str, Envelope, Envelope)> = vec![
+                ("elided-predicate", e.elide(), e.clone()),
+                ("elided-object", e.clone(), e.elide()),
+                ("kv-predicate-leaf-object", kv.clone(), leaf_twin.clone()),
+                ("leaf-predicate-kv-object", leaf_twin, kv),
+            ];
+            for (label, pr, ob) in pairs {
+                ctx.eval();
+                ctx.count("digest_equal_predicate_and_object");
+                let a = Envelope::new_assertion(pr, ob);
+                roundtrip(ctx, &a, label, None);
+                roundtrip(ctx, &Envelope::new("holder").add_assertion_envelope(a).unwrap(), label, None);
+            }
+        }
+        if case % 6007 == 11 {
+            ctx.eval();
+            ctx.count("megabyte_of_one_byte_compressed");
+            let n = *rng.pick(&[1_000_000usize, 1_048_576, 1_500_000]);
+            let big = Envelope::new(dcbor::ByteString::from(vec![(case % 7) as u8; n])).add_assertion("kind", "run");
+            if let Ok(c) = big.compress() {
+                roundtrip(ctx, &c, "compressed-megabyte-run", None);
+                roundtrip(ctx, &Envelope::new("holder").add_assertion("blob", c), "compressed-megabyte-run-as-object", None);
+            }
+            if let Ok(c) = big.compress_subject() {
+                roundtrip(ctx, &c, "compressed-megabyte-run-subject", None);
+            }
+        }
         // placeholders with foreign digests that are simple functions of a present element's digest (leading half
         // equal, words permuted, one bit apart ...), attached in either order: still one canonical encoding
-        if case % 6 == 2 {
+        if case % 29 == 2 {
             let d = *rng.pick(&t.all_digests());
             for (label, rd) in crate::adv::related_digests(&d) {
                 ctx.eval();
